@@ -2,6 +2,7 @@ SPECIFICATION TraceSpec
 CONSTANT Part = "machine"
 CONSTANT Deviation = "none"
 CONSTANT MaxDepth = 0
+CONSTANT Rebounds = TRUE
 CONSTANT Export = FALSE
 POSTCONDITION TraceAccepted
 CHECK_DEADLOCK FALSE
